@@ -1,7 +1,7 @@
 (* C14 — Client-maintained referrers indexes lose no update under concurrency. *)
 From Oras Require Import Base.Prelude Generated.GC14 Model.Referrers Proofs.Referrers Model.Merge
   Proofs.Merge Proofs.MergeLin Proofs.MergeThm Model.Delivery Proofs.Delivery Model.Live Proofs.Live
-  Model.MergeFine Proofs.MergeFine Proofs.MergeFineWake Proofs.MergeFine2 Proofs.MergeFine3.
+  Model.MergeFine Proofs.MergeFine Proofs.MergeFineWake Proofs.MergeFine2 Proofs.MergeFine3 Proofs.MergeFineProg.
 
 (* applyReferrerChanges (position map, tombstones, hint) = set semantics on the
    de-duplicated, non-empty old list; survivors keep their order, additions are
@@ -339,6 +339,23 @@ Theorem C14_fine_no_lost_update : forall sg r0 st0 ftr f,
 Proof. exact fine_no_lost_update. Qed.
 Print Assumptions C14_fine_no_lost_update.
 
+(* channel-level DEADLOCK FREEDOM: in every reachable state of the channel-level system in which
+   some caller is inside Do or has not yet called its release function, a step other than a new
+   call / an external tag drop is enabled: a send of complete() that blocks on the full buffer
+   always has a member of the batch ready to receive (counting invariant InvP: members that
+   have not received = sends left + buffered status), and a caller still blocked on the status
+   channel of an earlier batch finds its status there or the channel closed *)
+Theorem C14_fine_no_deadlock : forall sg r0 st0 tr f,
+  frun sg (finit r0 st0) tr = Some f -> (exists t, fholding (f_pcs f t) = true) ->
+  exists e f', fis_env e = false /\ fstep sg f e = Some f'.
+Proof. exact fine_no_deadlock. Qed.
+Print Assumptions C14_fine_no_deadlock.
+
+Theorem C14_fine_counting : forall sg r0 st0 tr f,
+  frun sg (finit r0 st0) tr = Some f -> InvF f /\ InvP f.
+Proof. exact fine_reachable_inv. Qed.
+Print Assumptions C14_fine_counting.
+
 (* ---- the hypotheses are satisfiable: concrete instances ---- *)
 Definition dA := mkDesc 1 7 0. Definition dB := mkDesc 2 0 3. Definition dC := mkDesc 3 0 0.
 
@@ -384,6 +401,20 @@ Example lost_del_ex :
   | None => False
   end.
 Proof. vm_compute. repeat split. Qed.
+
+(* three callers in one batch, the PUT fails: the second error send of complete() blocks on the
+   full buffer until a member receives *)
+Example fine_block_ex :
+  match frun false (finit None [])
+          [FEGet 0 (Add dA); FEAssign 0; FEGet 1 (Add dB); FEAssign 1; FEGet 2 (Add dC); FEAssign 2;
+           FERecv 0; FEPrepare 0 false; FECommit 0; FEPut 0 true; FENotify 0]%nat with
+  | Some f => fstep false f (FENotify 0%nat) = None /\ f_pcs f 0%nat = FNotify RErr 1 /\
+              nwait f = 2%nat /\ fbuf (cur f) = Some (FRes RErr) /\
+              (exists f', frun false f [FERecv 1; FENotify 0; FERecv 2; FENotify 0; FESwap 0; FEDone 0; FEDone 1; FEDone 2]%nat = Some f' /\
+                          f_pool f' = None)
+  | None => False
+  end.
+Proof. vm_compute. repeat split. eexists. split; reflexivity. Qed.
 
 Example quiescent_ex : forall s, run false (init None []) ex_trace = Some s -> quiescent s.
 Proof.
